@@ -80,6 +80,9 @@ class ArgumentsGenerator:
                 plugin_manager=self.plugin_manager,
                 node=variable_definition,
             )
+            if not name.isidentifier():
+                # snake-casing can expose a leading digit (_1 -> 1)
+                name = f"_{name}"
             while name in used_names:
                 name += "_"
             used_names.add(name)
